@@ -2,7 +2,7 @@ import AmVerif.Proofs.StoreInsert
 /-
   The store invariant and its preservation by `insertRemote`.
 
-  `WF ops`     — what every history made by the library satisfies (ids identify ops, an element is
+  `OpsWF ops`     — what every history made by the library satisfies (ids identify ops, an element is
                  created after its reference element and updated after it is created, one kind of
                  key per object).
   `Fresh ops N` — causal delivery of `N`: nothing in the store refers to `N` yet, the element `N` is
@@ -14,7 +14,7 @@ import AmVerif.Proofs.StoreInsert
 namespace AmVerif.Crdt
 open AmVerif
 
-structure WF (ops : List Op) : Prop where
+structure OpsWF (ops : List Op) : Prop where
   strict : StrictIds ops
   refs : RefsSmaller ops
   /-- all ops of one object use one kind of key (map keys in maps, elements in sequences) -/
@@ -35,7 +35,7 @@ theorem strictIds_of_append {l₁ l₂ : List Op} (h : StrictIds (l₁ ++ l₂))
   unfold StrictIds at *
   exact (List.pairwise_append.mp h).1
 
-theorem WF.init {ops : List Op} {N : Op} (h : WF (ops ++ [N])) : WF ops where
+theorem OpsWF.init {ops : List Op} {N : Op} (h : OpsWF (ops ++ [N])) : OpsWF ops where
   strict := strictIds_of_append h.strict
   refs := fun o ho hi => h.refs o (List.mem_append_left _ ho) hi
   kinds := fun x hx y hy => h.kinds x (List.mem_append_left _ hx) y (List.mem_append_left _ hy)
@@ -43,7 +43,7 @@ theorem WF.init {ops : List Op} {N : Op} (h : WF (ops ++ [N])) : WF ops where
   updKey := fun x hx => h.updKey x (List.mem_append_left _ hx)
   updLater := fun x hx => h.updLater x (List.mem_append_left _ hx)
 
-theorem WF.fresh_id {ops : List Op} {N : Op} (h : WF (ops ++ [N])) : ∀ x ∈ ops, x.id ≠ N.id := by
+theorem OpsWF.fresh_id {ops : List Op} {N : Op} (h : OpsWF (ops ++ [N])) : ∀ x ∈ ops, x.id ≠ N.id := by
   intro x hx
   have := h.strict
   unfold StrictIds at this
@@ -133,7 +133,7 @@ theorem blocks_of_rga (ops : List Op) (N : Op) :
   elem := fun e he => ⟨(mem_rgaFrom he).2.1, (mem_rgaFrom he).2.2⟩
   upd := fun e _ u hu => ⟨(mem_updatesOf.mp hu).2.1, (mem_updatesOf.mp hu).2.2.2.1⟩
 
-theorem seg_place {ops : List Op} {N : Op} (hw : WF (ops ++ [N])) (hf : Fresh ops N)
+theorem seg_place {ops : List Op} {N : Op} (hw : OpsWF (ops ++ [N])) (hf : Fresh ops N)
     (hd : N.isDel = false) : placeInObjO N (seg ops N.obj) = seg (ops ++ [N]) N.obj := by
   have hw0 := hw.init
   have hNm : N ∈ ops ++ [N] := by simp
@@ -238,7 +238,7 @@ theorem head_flatMap_seg {ops : List Op} {C : List ObjId} {y : Op}
   rw [obj_of_mem_seg hy]; exact hc
 
 /-- **placing a stored op in the canonical order gives the canonical order** -/
-theorem placeRowO_canon {ops : List Op} {N : Op} (hw : WF (ops ++ [N])) (hf : Fresh ops N)
+theorem placeRowO_canon {ops : List Op} {N : Op} (hw : OpsWF (ops ++ [N])) (hf : Fresh ops N)
     (hd : N.isDel = false) : placeRowO N (canon ops) = canon (ops ++ [N]) := by
   have hw0 := hw.init
   have hdelins : ∀ x ∈ ops, x.isDel = true → x.insert = false := by
@@ -397,7 +397,7 @@ theorem insertRemote_ops (w : Op → Nat) (s : Store) (N : Op) :
 
 /-- **`insertRemote` preserves the invariant** under causal delivery -/
 theorem insertRemote_inv {w : Op → Nat} {ops : List Op} {s : Store} {N : Op}
-    (hw : WF (ops ++ [N])) (hf : Fresh ops N) (hi : StoreInv ops s) :
+    (hw : OpsWF (ops ++ [N])) (hf : Fresh ops N) (hi : StoreInv ops s) :
     StoreInv (ops ++ [N]) (insertRemote w s N) := by
   have hw0 := hw.init
   have hNm : N ∈ ops ++ [N] := by simp
